@@ -8,8 +8,8 @@ Definition rgetw (r : option node) (rw : N) (k : bytes) : N := snd (root_get r r
 Lemma rgetw_some n rw k : rgetw (Some n) rw k = getw n k rw.
 Proof. reflexivity. Qed.
 
-Lemma privF_of_tids_lt next0 c T : T < c_tid c ->
-  (forall n, tids_le T n -> privF c (Fr next0) n) /\ (forall ch, tids_le_ch T ch -> privF_ch c (Fr next0) ch).
+Lemma privF_of_tids_lt (F : N -> Prop) c T : T < c_tid c ->
+  (forall n, tids_le T n -> privF c F n) /\ (forall ch, tids_le_ch T ch -> privF_ch c F ch).
 Proof.
   intros HT. apply node_children_ind.
   - intros; exact I.
@@ -20,14 +20,16 @@ Qed.
 
 
 Section Hist.
-Variable next0 : N.
+Variable next0 : N.      (* allocator bound: every channel allocated from here on satisfies F *)
+Variable F : N -> Prop.  (* "allocated by the txn (and not the handle)" *)
+Hypothesis HF : forall b, next0 <= b -> F b.
 Variable k : bytes.
-Variable a : N.          (* the handle: Get(k)'s channel on the committed tree *)
+Variable a : N.          (* the handle: Get(k)'s channel *)
 Hypothesis Ha0 : a <> 0.
-Hypothesis Haold : a < next0.   (* allocated before the txn began *)
+Hypothesis HnF : ~ F a.  (* e.g. allocated before the txn began *)
 
 Definition root_inv (c : ctx) (r : option node) : Prop :=
-  match r with None => True | Some n => privF c (Fr next0) n /\ tids_le (c_tid c) n /\ tmono n end.
+  match r with None => True | Some n => privF c F n /\ tids_le (c_tid c) n /\ tmono n end.
 Definition TInv (x : txn) : Prop :=
   t_tid x <> 0 /\ root_inv (txn_ctx x) (t_root x) /\ next0 <= s_next (t_st x).
 
@@ -35,8 +37,8 @@ Definition TInv (x : txn) : Prop :=
 Definition closedish (x : txn) : Prop := In a (s_ws (t_st x)) \/ (a = t_rw x /\ t_dirty x = true).
 Definition J (x : txn) : Prop := closedish x \/ rgetw (t_root x) (t_rw x) k = a.
 
-Lemma not_fresh : ~ Fr next0 a.
-Proof. unfold Fr. lia. Qed.
+Lemma not_fresh : ~ F a.
+Proof. exact HnF. Qed.
 
 (* ---- one step ---- *)
 Lemma modify_step x md k' v :
@@ -47,11 +49,11 @@ Proof.
   intros (Hc0 & Hr & Hn) HJ. unfold txn_modify. cbn zeta.
   destruct (t_root x) as [n|] eqn:Er.
   - destruct Hr as (Hp & Hl & Hm).
-    pose proof (proj1 (modify_inv (txn_ctx x) Hc0 next0 md k' v) n (t_st x) k' Hp Hl Hm Hn) as (P' & M' & N').
+    pose proof (proj1 (modify_inv (txn_ctx x) Hc0 next0 F HF md k' v) n (t_st x) k' Hp Hl Hm Hn) as (P' & M' & N').
     pose proof (proj1 (modify_tids (txn_ctx x) md k' v) n (t_st x) k' Hl) as L'.
     pose proof (proj1 (modify_mono (txn_ctx x) md k' v) n (t_st x) k') as Mo.
-    pose proof (proj1 (modify_stable (txn_ctx x) md k' v Hc0 (Fr next0)) n (t_st x) k' k (t_rw x) (t_rw x) Hp) as St.
-    pose proof (proj1 (modify_records_gen (txn_ctx x) md k' v Hc0 (Fr next0)) n (t_st x) k' (t_rw x) Hp) as Rg.
+    pose proof (proj1 (modify_stable (txn_ctx x) md k' v Hc0 F) n (t_st x) k' k (t_rw x) (t_rw x) Hp) as St.
+    pose proof (proj1 (modify_records_gen (txn_ctx x) md k' v Hc0 F) n (t_st x) k' (t_rw x) Hp) as Rg.
     set (r := modify_node (txn_ctx x) md k' v (t_st x) n k') in *.
     cbn [fst t_tid t_root t_st t_rw t_dirty]. unfold TInv, J, closedish, rgetw, root_inv, txn_ctx in *.
     cbn [t_tid t_root t_st t_rw t_dirty t_ro root_get snd]. rewrite Er in HJ. cbn [root_get] in HJ.
@@ -63,7 +65,7 @@ Proof.
     + intros ->. destruct HJ as [[H|[H _]]|H]; [left; auto|right; auto|].
       unfold rec3 in Rg. rewrite H in Rg. destruct Rg as [E|[E|E]]; [right; auto|left; auto|].
       exfalso. now apply not_fresh.
-  - pose proof (fresh_inv (txn_ctx x) Hc0 next0 (t_st x) Hn) as [_ N1].
+  - pose proof (fresh_inv (txn_ctx x) Hc0 next0 F HF (t_st x) Hn) as [_ N1].
     destruct (fresh (txn_ctx x) (t_st x)) as [lw s1] eqn:Ef. cbn [fst snd m_node m_st m_old] in *.
     assert (Mo : ws_mono (t_st x) s1) by (pose proof (fresh_mono (txn_ctx x) (t_st x)) as M; now rewrite Ef in M).
     unfold TInv, J, closedish, rgetw, root_inv, txn_ctx in *. rewrite Er in HJ.
@@ -84,11 +86,11 @@ Proof.
   2:{ cbn [fst snd]. split; [exact HT|]. split; [exact HJ|]. intros _ H. exfalso. apply H. reflexivity. }
 
   destruct Hr as (Hp & Hl & Hm).
-  pose proof (proj1 (delete_inv (txn_ctx x) Hc0 next0) n (t_st x) k' Hp Hl Hm Hn) as Di.
+  pose proof (proj1 (delete_inv (txn_ctx x) Hc0 next0 F HF) n (t_st x) k' Hp Hl Hm Hn) as Di.
   pose proof (proj1 (delete_tids (txn_ctx x)) n (t_st x) k' Hl) as Dt.
   pose proof (proj1 (delete_mono (txn_ctx x)) n (t_st x) k') as Mo.
-  pose proof (proj1 (delete_stable (txn_ctx x) Hc0 (Fr next0)) n (t_st x) k' k (t_rw x) Hp Hl Hm) as St.
-  pose proof (proj1 (delete_records_gen (txn_ctx x) Hc0 (Fr next0)) n (t_st x) k' (t_rw x) Hp Hl Hm) as Rg.
+  pose proof (proj1 (delete_stable (txn_ctx x) Hc0 F) n (t_st x) k' k (t_rw x) Hp Hl Hm) as St.
+  pose proof (proj1 (delete_records_gen (txn_ctx x) Hc0 F) n (t_st x) k' (t_rw x) Hp Hl Hm) as Rg.
   destruct (del_node (txn_ctx x) (t_st x) n k') as [|old repl s' ip].
   - cbn [fst snd]. split; [exact HT|]. split; [exact HJ|]. intros _ H. exfalso. apply H. reflexivity.
   - cbn [fst snd dinv dres_tids dmono dstab] in *. destruct Di as [N' Di].
@@ -114,9 +116,47 @@ Proof.
   unfold TInv, bump, root_inv, txn_ctx in *. cbn [t_tid t_root t_st t_ro c_tid] in *.
   split; [lia|]. split; auto. destruct (t_root x) as [n|]; auto. destruct Hr as (Hp & Hl & Hm).
   repeat split; auto.
-  - apply (proj1 (privF_of_tids_lt next0 (mkCtx (t_tid x + 1) (t_ro x)) (t_tid x) ltac:(simpl; lia))). exact Hl.
+  - apply (proj1 (privF_of_tids_lt F (mkCtx (t_tid x + 1) (t_ro x)) (t_tid x) ltac:(simpl; lia))). exact Hl.
   - eapply (proj1 tids_le_mono); [|exact Hl]. lia.
 Qed.
+
+(* the side conditions are inductive along chains of transactions: ids (Part/Cow.v) and id monotonicity *)
+Lemma wstep_TInv x o : TInv x -> TInv (wstep x o).
+Proof.
+  clear Ha0 HnF a k.
+  intros (Hc0 & Hr & Hn). destruct o as [k' v|k' v f|k'|]; cbn [wstep].
+  - unfold txn_modify. destruct (t_root x) as [n|] eqn:Er.
+    + destruct Hr as (Hp & Hl & Hm).
+      pose proof (proj1 (modify_inv (txn_ctx x) Hc0 next0 F HF None k' v) n (t_st x) k' Hp Hl Hm Hn) as (P' & M' & N').
+      pose proof (proj1 (modify_tids (txn_ctx x) None k' v) n (t_st x) k' Hl) as L'.
+      unfold TInv, root_inv, txn_ctx in *. cbn [fst t_tid t_root t_st t_ro]. auto.
+    + pose proof (fresh_inv (txn_ctx x) Hc0 next0 F HF (t_st x) Hn) as [_ N1].
+      destruct (fresh (txn_ctx x) (t_st x)) as [lw s1]. unfold TInv, root_inv, txn_ctx in *.
+      cbn [fst snd t_tid t_root t_st t_ro m_node m_st] in *. repeat split; auto; exact I.
+  - unfold txn_modify. destruct (t_root x) as [n|] eqn:Er.
+    + destruct Hr as (Hp & Hl & Hm).
+      pose proof (proj1 (modify_inv (txn_ctx x) Hc0 next0 F HF (Some f) k' v) n (t_st x) k' Hp Hl Hm Hn) as (P' & M' & N').
+      pose proof (proj1 (modify_tids (txn_ctx x) (Some f) k' v) n (t_st x) k' Hl) as L'.
+      unfold TInv, root_inv, txn_ctx in *. cbn [fst t_tid t_root t_st t_ro]. auto.
+    + pose proof (fresh_inv (txn_ctx x) Hc0 next0 F HF (t_st x) Hn) as [_ N1].
+      destruct (fresh (txn_ctx x) (t_st x)) as [lw s1]. unfold TInv, root_inv, txn_ctx in *.
+      cbn [fst snd t_tid t_root t_st t_ro m_node m_st] in *. repeat split; auto; exact I.
+  - unfold txn_delete. destruct (t_root x) as [n|] eqn:Er.
+    2:{ cbn [fst]. unfold TInv. rewrite Er. auto. }
+    destruct Hr as (Hp & Hl & Hm).
+    pose proof (proj1 (delete_inv (txn_ctx x) Hc0 next0 F HF) n (t_st x) k' Hp Hl Hm Hn) as Di.
+    pose proof (proj1 (delete_tids (txn_ctx x)) n (t_st x) k' Hl) as Dt.
+    destruct (del_node (txn_ctx x) (t_st x) n k') as [|old repl s' ip].
+    + cbn [fst]. unfold TInv, root_inv. rewrite Er. auto.
+    + cbn [fst dinv dres_tids] in *. destruct Di as [N' Di]. unfold TInv, root_inv, txn_ctx in *.
+      cbn [t_tid t_root t_st t_ro]. split; auto. split; auto. destruct repl as [n'|]; [tauto|exact I].
+  - unfold TInv, bump, root_inv, txn_ctx in *. cbn [t_tid t_root t_st t_ro c_tid] in *.
+    split; [lia|]. split; auto. destruct (t_root x) as [n|]; auto. destruct Hr as (Hp & Hl & Hm).
+    repeat split; auto.
+    + apply (proj1 (privF_of_tids_lt F (mkCtx (t_tid x + 1) (t_ro x)) (t_tid x) ltac:(simpl; lia))). exact Hl.
+    + eapply (proj1 tids_le_mono); [|exact Hl]. lia.
+Qed.
+
 
 (* which operations touch k (a delete only if it reports an old value, i.e. the key was present) *)
 Definition touches (x : txn) (o : wop) : Prop :=
@@ -193,49 +233,14 @@ Theorem get_watch_closed_history t next ops k :
   In (snd (tree_get t k)) (snd (txn_notify (fold_left wstep ops (tree_txn t next)))).
 Proof.
   intros Hids Hnz Hm Ha0 Hold Ht.
-  apply (touched_closed next k (snd (tree_get t k)) Ha0 Hold ops (tree_txn t next)); auto.
+  assert (HnF : ~ Fr next (snd (tree_get t k))) by (unfold Fr; lia).
+  apply (touched_closed next (Fr next) (fun b h => h) k (snd (tree_get t k)) Ha0 HnF ops (tree_txn t next)); auto.
   - unfold TInv, tree_txn, root_inv, txn_ctx. cbn [t_tid t_root t_st t_ro s_next c_tid].
     split; auto. split; [|lia]. unfold tree_ids_ok, root_tmono in *. destruct (tr_root t) as [n|]; auto.
     destruct Hids as [H0 Hle]. repeat split; auto.
-    + apply (proj1 (privF_of_tids_lt next (mkCtx (tr_next t) (tr_ro t)) (tr_next t - 1) ltac:(simpl; lia))). exact Hle.
+    + apply (proj1 (privF_of_tids_lt (Fr next) (mkCtx (tr_next t) (tr_ro t)) (tr_next t - 1) ltac:(simpl; lia))). exact Hle.
     + eapply (proj1 tids_le_mono); [|exact Hle]. lia.
   - right. reflexivity.
-Qed.
-
-(* the side conditions are inductive along chains of transactions: ids (Part/Cow.v) and id monotonicity *)
-Lemma wstep_TInv next0 x o : TInv next0 x -> TInv next0 (wstep x o).
-Proof.
-  intros (Hc0 & Hr & Hn). destruct o as [k' v|k' v f|k'|]; cbn [wstep].
-  - unfold txn_modify. destruct (t_root x) as [n|] eqn:Er.
-    + destruct Hr as (Hp & Hl & Hm).
-      pose proof (proj1 (modify_inv (txn_ctx x) Hc0 next0 None k' v) n (t_st x) k' Hp Hl Hm Hn) as (P' & M' & N').
-      pose proof (proj1 (modify_tids (txn_ctx x) None k' v) n (t_st x) k' Hl) as L'.
-      unfold TInv, root_inv, txn_ctx in *. cbn [fst t_tid t_root t_st t_ro]. auto.
-    + pose proof (fresh_inv (txn_ctx x) Hc0 next0 (t_st x) Hn) as [_ N1].
-      destruct (fresh (txn_ctx x) (t_st x)) as [lw s1]. unfold TInv, root_inv, txn_ctx in *.
-      cbn [fst snd t_tid t_root t_st t_ro m_node m_st] in *. repeat split; auto; exact I.
-  - unfold txn_modify. destruct (t_root x) as [n|] eqn:Er.
-    + destruct Hr as (Hp & Hl & Hm).
-      pose proof (proj1 (modify_inv (txn_ctx x) Hc0 next0 (Some f) k' v) n (t_st x) k' Hp Hl Hm Hn) as (P' & M' & N').
-      pose proof (proj1 (modify_tids (txn_ctx x) (Some f) k' v) n (t_st x) k' Hl) as L'.
-      unfold TInv, root_inv, txn_ctx in *. cbn [fst t_tid t_root t_st t_ro]. auto.
-    + pose proof (fresh_inv (txn_ctx x) Hc0 next0 (t_st x) Hn) as [_ N1].
-      destruct (fresh (txn_ctx x) (t_st x)) as [lw s1]. unfold TInv, root_inv, txn_ctx in *.
-      cbn [fst snd t_tid t_root t_st t_ro m_node m_st] in *. repeat split; auto; exact I.
-  - unfold txn_delete. destruct (t_root x) as [n|] eqn:Er.
-    2:{ cbn [fst]. unfold TInv. rewrite Er. auto. }
-    destruct Hr as (Hp & Hl & Hm).
-    pose proof (proj1 (delete_inv (txn_ctx x) Hc0 next0) n (t_st x) k' Hp Hl Hm Hn) as Di.
-    pose proof (proj1 (delete_tids (txn_ctx x)) n (t_st x) k' Hl) as Dt.
-    destruct (del_node (txn_ctx x) (t_st x) n k') as [|old repl s' ip].
-    + cbn [fst]. unfold TInv, root_inv. rewrite Er. auto.
-    + cbn [fst dinv dres_tids] in *. destruct Di as [N' Di]. unfold TInv, root_inv, txn_ctx in *.
-      cbn [t_tid t_root t_st t_ro]. split; auto. split; auto. destruct repl as [n'|]; [tauto|exact I].
-  - unfold TInv, bump, root_inv, txn_ctx in *. cbn [t_tid t_root t_st t_ro c_tid] in *.
-    split; [lia|]. split; auto. destruct (t_root x) as [n|]; auto. destruct Hr as (Hp & Hl & Hm).
-    repeat split; auto.
-    + apply (proj1 (privF_of_tids_lt next0 (mkCtx (t_tid x + 1) (t_ro x)) (t_tid x) ltac:(simpl; lia))). exact Hl.
-    + eapply (proj1 tids_le_mono); [|exact Hl]. lia.
 Qed.
 
 Theorem history_keeps_tmono t next ops :
@@ -243,14 +248,14 @@ Theorem history_keeps_tmono t next ops :
   root_tmono (tr_root (snd (txn_commit (fold_left wstep ops (tree_txn t next))))).
 Proof.
   intros Hids Hnz Hm.
-  assert (HT : TInv next (tree_txn t next)).
+  assert (HT : TInv next (Fr next) (tree_txn t next)).
   { unfold TInv, tree_txn, root_inv, txn_ctx. cbn [t_tid t_root t_st t_ro s_next c_tid].
     split; auto. split; [|lia]. unfold tree_ids_ok, root_tmono in *. destruct (tr_root t) as [n|]; auto.
     destruct Hids as [H0 Hle]. repeat split; auto.
-    - apply (proj1 (privF_of_tids_lt next (mkCtx (tr_next t) (tr_ro t)) (tr_next t - 1) ltac:(simpl; lia))). exact Hle.
+    - apply (proj1 (privF_of_tids_lt (Fr next) (mkCtx (tr_next t) (tr_ro t)) (tr_next t - 1) ltac:(simpl; lia))). exact Hle.
     - eapply (proj1 tids_le_mono); [|exact Hle]. lia. }
-  assert (G : forall ops x, TInv next x -> TInv next (fold_left wstep ops x)).
-  { induction ops0 as [|o r IH]; intros x Hx; simpl; auto. apply IH. now apply wstep_TInv. }
+  assert (G : forall ops x, TInv next (Fr next) x -> TInv next (Fr next) (fold_left wstep ops x)).
+  { induction ops0 as [|o r IH]; intros x Hx; simpl; auto. apply IH. now apply (wstep_TInv next (Fr next) (fun b h => h)). }
   specialize (G ops _ HT). destruct G as (_ & Hr & _).
   unfold txn_commit. destruct (t_dirty _); cbn [snd tr_root]; unfold root_inv, root_tmono in *;
     destruct (t_root (fold_left wstep ops (tree_txn t next))); tauto.
